@@ -145,15 +145,16 @@ fn build(row: &Value, w: &World) -> (Jwt, JwtPresentationValidationOptions, Expe
       o.insert("exp".into(), json!(year(s(&row["exp"]))));
       expect.exp = Some(year(s(&row["exp"])));
     }
-    o.insert("iat".into(), json!(year(s(&row["iat"]))));
+    o.remove("iat");
+    o.insert(s(&row["carrier"]).into(), json!(year(s(&row["iat"]))));
     expect.issuance = Some(year(s(&row["iat"])));
     let jwt = sign_jwt(&serde_json::to_string(&claims).unwrap(), kid.as_deref(), nonce, sk);
     let mut opts = JwtPresentationValidationOptions::new().presentation_verifier_options(v);
-    if matches!(s(&row["bounds"]), "both" | "only_earliest_expiry") {
-      opts = opts.earliest_expiry_date(Timestamp::parse("2005-06-15T12:00:00Z").unwrap());
+    if s(&row["earliest_expiry"]) != "unset" {
+      opts = opts.earliest_expiry_date(Timestamp::from_unix(year(s(&row["earliest_expiry"]))).unwrap());
     }
-    if matches!(s(&row["bounds"]), "both" | "only_latest_issuance") {
-      opts = opts.latest_issuance_date(Timestamp::parse("2001-06-15T12:00:00Z").unwrap());
+    if s(&row["latest_issuance"]) != "unset" {
+      opts = opts.latest_issuance_date(Timestamp::from_unix(year(s(&row["latest_issuance"]))).unwrap());
     }
     return (jwt, opts, expect);
   } else {
